@@ -447,22 +447,39 @@ impl Value {
                     };
                 }
                 if call.args.len() == 2 {
-                    let left = Value::resolve(&call.args[0], ctx)?;
                     match call.func_name.as_str() {
-                        operators::ADD => return left + Value::resolve(&call.args[1], ctx)?,
-                        operators::SUBSTRACT => return left - Value::resolve(&call.args[1], ctx)?,
-                        operators::DIVIDE => return left / Value::resolve(&call.args[1], ctx)?,
-                        operators::MULTIPLY => return left * Value::resolve(&call.args[1], ctx)?,
-                        operators::MODULO => return left % Value::resolve(&call.args[1], ctx)?,
+                        operators::ADD => {
+                            return Value::resolve(&call.args[0], ctx)?
+                                + Value::resolve(&call.args[1], ctx)?
+                        }
+                        operators::SUBSTRACT => {
+                            return Value::resolve(&call.args[0], ctx)?
+                                - Value::resolve(&call.args[1], ctx)?
+                        }
+                        operators::DIVIDE => {
+                            return Value::resolve(&call.args[0], ctx)?
+                                / Value::resolve(&call.args[1], ctx)?
+                        }
+                        operators::MULTIPLY => {
+                            return Value::resolve(&call.args[0], ctx)?
+                                * Value::resolve(&call.args[1], ctx)?
+                        }
+                        operators::MODULO => {
+                            return Value::resolve(&call.args[0], ctx)?
+                                % Value::resolve(&call.args[1], ctx)?
+                        }
                         operators::EQUALS => {
+                            let left = Value::resolve(&call.args[0], ctx)?;
                             return Value::Bool(left.eq(&Value::resolve(&call.args[1], ctx)?))
-                                .into()
+                                .into();
                         }
                         operators::NOT_EQUALS => {
+                            let left = Value::resolve(&call.args[0], ctx)?;
                             return Value::Bool(left.ne(&Value::resolve(&call.args[1], ctx)?))
-                                .into()
+                                .into();
                         }
                         operators::LESS => {
+                            let left = Value::resolve(&call.args[0], ctx)?;
                             let right = Value::resolve(&call.args[1], ctx)?;
                             return Value::Bool(
                                 left.partial_cmp(&right)
@@ -472,6 +489,7 @@ impl Value {
                             .into();
                         }
                         operators::LESS_EQUALS => {
+                            let left = Value::resolve(&call.args[0], ctx)?;
                             let right = Value::resolve(&call.args[1], ctx)?;
                             return Value::Bool(
                                 left.partial_cmp(&right)
@@ -481,6 +499,7 @@ impl Value {
                             .into();
                         }
                         operators::GREATER => {
+                            let left = Value::resolve(&call.args[0], ctx)?;
                             let right = Value::resolve(&call.args[1], ctx)?;
                             return Value::Bool(
                                 left.partial_cmp(&right)
@@ -490,6 +509,7 @@ impl Value {
                             .into();
                         }
                         operators::GREATER_EQUALS => {
+                            let left = Value::resolve(&call.args[0], ctx)?;
                             let right = Value::resolve(&call.args[1], ctx)?;
                             return Value::Bool(
                                 left.partial_cmp(&right)
@@ -499,6 +519,7 @@ impl Value {
                             .into();
                         }
                         operators::IN => {
+                            let left = Value::resolve(&call.args[0], ctx)?;
                             let right = Value::resolve(&call.args[1], ctx)?;
                             match (left, right) {
                                 (Value::String(l), Value::String(r)) => {
@@ -517,6 +538,7 @@ impl Value {
                             }
                         }
                         operators::LOGICAL_OR => {
+                            let left = Value::resolve(&call.args[0], ctx)?;
                             return if left.to_bool() {
                                 left.into()
                             } else {
@@ -524,6 +546,7 @@ impl Value {
                             };
                         }
                         operators::LOGICAL_AND => {
+                            let left = Value::resolve(&call.args[0], ctx)?;
                             return if !left.to_bool() {
                                 Value::Bool(false)
                             } else {
@@ -533,7 +556,7 @@ impl Value {
                             .into();
                         }
                         operators::INDEX => {
-                            let value = left;
+                            let value = Value::resolve(&call.args[0], ctx)?;
                             let idx = Value::resolve(&call.args[1], ctx)?;
                             return match (value, idx) {
                                 (Value::List(items), Value::Int(idx)) => items
@@ -582,11 +605,13 @@ impl Value {
                     }
                 }
                 if call.args.len() == 1 {
-                    let expr = Value::resolve(&call.args[0], ctx)?;
                     match call.func_name.as_str() {
-                        operators::LOGICAL_NOT => return Ok(Value::Bool(!expr.to_bool())),
+                        operators::LOGICAL_NOT => {
+                            let expr = Value::resolve(&call.args[0], ctx)?;
+                            return Ok(Value::Bool(!expr.to_bool()));
+                        }
                         operators::NEGATE => {
-                            return match expr {
+                            return match Value::resolve(&call.args[0], ctx)? {
                                 Value::Int(i) => i
                                     .checked_neg()
                                     .ok_or(ExecutionError::IntegerOverflow(
@@ -602,7 +627,7 @@ impl Value {
                             }
                         }
                         operators::NOT_STRICTLY_FALSE => {
-                            return match expr {
+                            return match Value::resolve(&call.args[0], ctx)? {
                                 Value::Bool(b) => Ok(Value::Bool(b)),
                                 _ => Ok(Value::Bool(true)),
                             }
